@@ -210,22 +210,19 @@ Definition delete_guard_ok (prev cur : topo) (pods : list pod) (q : quota) : boo
   && negb (existsb (fun p => fst p =? q_name q) pods)
   && negb (mem (q_name q) (infos cur)).
 
-(* an accepted deletion while pods are bound to the quota through its namespaces (a namespace it
-   declares, or the namespace named like it) although none carries its label: what
-   hasQuotaBoundedPods would have found but ValidDeleteQuota does not look for *)
+(* pods bound to the quota a deletion request names, the way hasQuotaBoundedPods counts them:
+   carrying its label, in the namespace named like it, or in a namespace it declares *)
 Definition nsbound_delete (r : req) : bool :=
   match snd r with
   | Delete q => has_pods (fst r) (q_name q) (ann_ns q)
   | _ => false
   end.
 
-(* [cons] = the history so far was consistent (see [consistent1]); [pend] = 21 once a deletion
-   with namespace-bound pods was accepted (reported only if nothing else fails, so that any
-   other violation in the same history is still named) *)
-Fixpoint hist_code (prev : topo) (st : store) (cons : bool) (pend : Z) (rs : list req)
+(* [cons] = the history so far was consistent (see [consistent1]) *)
+Fixpoint hist_code (prev : topo) (st : store) (cons : bool) (rs : list req)
          (tr : list (bool * topo)) : Z :=
   match rs, tr with
-  | [], [] => pend
+  | [], [] => 0
   | r :: rs', (acc, cur) :: tr' =>
       let w := wf_code cur in
       if negb (w =? 0) then w
@@ -234,13 +231,14 @@ Fixpoint hist_code (prev : topo) (st : store) (cons : bool) (pend : Z) (rs : lis
                      | Delete q => negb (delete_guard_ok prev cur (fst r) q)
                      | _ => false
                      end then 19
+      else if acc && nsbound_delete r then 21
       else
         let cons' := cons && consistent1 st acc r in
         let st' := store_step st acc r in
         if cons' && negb (ns_okb st' cur) then 18
-        else hist_code cur st' cons' (if acc && nsbound_delete r then 21 else pend) rs' tr'
+        else hist_code cur st' cons' rs' tr'
   | _, _ => 9
   end.
 
 Definition prop_code (g : bool * bool) (rs : list req) (tr : list (bool * topo)) : Z :=
-  hist_code (init_topo g) [] true 0 rs tr.
+  hist_code (init_topo g) [] true rs tr.
